@@ -134,6 +134,110 @@ func (cachehist) Gen(r *Rng, cfg GenConfig) any {
 		names[i] = t.Name
 	}
 	nops := r.Range(4, 14)
+	// the generator tracks the disk its own operations produce, so that biased
+	// sub-histories ("macros") can name files that really are inputs of a task
+	disk := map[string]string{}
+	for k, v := range c.Disk {
+		disk[k] = v
+	}
+	emit := func(op CHOp) {
+		switch op.Op {
+		case "write":
+			disk[op.Path] = op.Content
+		case "delete":
+			delete(disk, op.Path)
+		}
+		c.Ops = append(c.Ops, op)
+	}
+	otherContent := func(old string) string {
+		for {
+			if n := Pick(r, chContents); n != old {
+				return n
+			}
+		}
+	}
+	inputFiles := func(t TaskDef) []string {
+		seen := map[string]bool{}
+		var fs []string
+		for _, d := range t.Deps {
+			switch d.Kind {
+			case "file":
+				if _, ok := disk[d.Value]; ok && !seen[d.Value] {
+					seen[d.Value] = true
+					fs = append(fs, d.Value)
+				}
+			case "glob":
+				for _, f := range RefGlob(disk, d.Value) {
+					if !seen[f] {
+						seen[f] = true
+						fs = append(fs, f)
+					}
+				}
+			}
+		}
+		sort.Strings(fs)
+		return fs
+	}
+	macro := func() {
+		t := Pick(r, c.Prog.Tasks)
+		fs := inputFiles(t)
+		if len(fs) == 0 {
+			return
+		}
+		f := Pick(r, fs)
+		old := disk[f]
+		runT := CHOp{Op: "run", Tasks: []string{t.Name}, JSON: r.Chance(2, 3)}
+		runAll := CHOp{Op: "run", Tasks: Shuffled(r, names), JSON: r.Chance(2, 3)}
+		switch r.Intn(5) {
+		case 0: // every input disappears, the task succeeds on the empty set, the same inputs come back
+			saved := map[string]string{}
+			emit(runT)
+			for _, x := range fs {
+				saved[x] = disk[x]
+				emit(CHOp{Op: "delete", Path: x})
+			}
+			emit(runT)
+			for _, x := range fs {
+				emit(CHOp{Op: "write", Path: x, Content: saved[x]})
+			}
+			emit(runT)
+		case 1: // edit, multi-task run, revert
+			emit(runAll)
+			emit(CHOp{Op: "write", Path: f, Content: otherContent(old)})
+			emit(runAll)
+			emit(CHOp{Op: "write", Path: f, Content: old})
+			emit(Pick(r, []CHOp{runT, runAll}))
+		case 2: // success on X, failure on Y, back to X
+			emit(runT)
+			emit(CHOp{Op: "write", Path: f, Content: otherContent(old)})
+			emit(CHOp{Op: "ctl", Task: t.Name, Cmd: r.Intn(t.NCmd), Exit: Pick(r, chExits)})
+			emit(runT)
+			emit(CHOp{Op: "ctl", Task: t.Name, Cmd: 0, Exit: 0})
+			if t.NCmd > 1 {
+				emit(CHOp{Op: "ctl", Task: t.Name, Cmd: 1, Exit: 0})
+			}
+			emit(CHOp{Op: "write", Path: f, Content: old})
+			emit(runT)
+		case 3: // forced success on edited inputs, back to the old ones
+			emit(runT)
+			emit(CHOp{Op: "write", Path: f, Content: otherContent(old)})
+			forced := runT
+			forced.Force = true
+			emit(forced)
+			emit(CHOp{Op: "write", Path: f, Content: old})
+			emit(runT)
+		default: // one input removed and re-created
+			emit(runT)
+			emit(CHOp{Op: "delete", Path: f})
+			emit(Pick(r, []CHOp{runT, runAll}))
+			emit(CHOp{Op: "write", Path: f, Content: old})
+			emit(runT)
+		}
+	}
+	macroAt := -1
+	if r.Chance(1, 3) {
+		macroAt = r.Intn(nops)
+	}
 	forceBias, failBias := 1, 1
 	switch cfg.Prop {
 	case "C14":
@@ -142,6 +246,11 @@ func (cachehist) Gen(r *Rng, cfg GenConfig) any {
 		failBias = 4
 	}
 	for len(c.Ops) < nops {
+		if len(c.Ops) >= macroAt && macroAt >= 0 {
+			macroAt = -1
+			macro()
+			continue
+		}
 		k := r.Intn(20)
 		switch {
 		case k < 9: // run
@@ -158,9 +267,9 @@ func (cachehist) Gen(r *Rng, cfg GenConfig) any {
 			}
 			c.Ops = append(c.Ops, op)
 		case k < 14: // write (create / edit / revert, contents come from a pool of 3)
-			c.Ops = append(c.Ops, CHOp{Op: "write", Path: Pick(r, chFiles), Content: Pick(r, chContents)})
+			emit(CHOp{Op: "write", Path: Pick(r, chFiles), Content: Pick(r, chContents)})
 		case k < 15:
-			c.Ops = append(c.Ops, CHOp{Op: "delete", Path: Pick(r, chFiles)})
+			emit(CHOp{Op: "delete", Path: Pick(r, chFiles)})
 		case k < 16+failBias:
 			t := Pick(r, c.Prog.Tasks)
 			ex := 0
